@@ -47,6 +47,19 @@ func main() {
 			for _, p := range m.Roots {
 				for _, f := range p.Syntax {
 					for _, d := range f.Decls {
+						if gd, ok := d.(*ast.GenDecl); ok && (gd.Tok == token.CONST || gd.Tok == token.VAR) {
+							for _, sp := range gd.Specs {
+								for _, nm := range sp.(*ast.ValueSpec).Names {
+									q := types.RelativeTo(p.Types)
+									switch o := p.TypesInfo.Defs[nm].(type) {
+									case *types.Const:
+										lines = append(lines, name+"\t"+m.Rel(p.PkgPath)+"\tconst "+nm.Name+"\t"+types.TypeString(o.Type(), q)+"="+o.Val().ExactString())
+									case *types.Var:
+										lines = append(lines, name+"\t"+m.Rel(p.PkgPath)+"\tvar "+nm.Name+"\t"+types.TypeString(o.Type(), q))
+									}
+								}
+							}
+						}
 						if gd, ok := d.(*ast.GenDecl); ok && gd.Tok == token.TYPE {
 							for _, sp := range gd.Specs {
 								ts := sp.(*ast.TypeSpec)
